@@ -21,7 +21,8 @@ RULE = ("E1: ('len', L, zrun, key, framing, decl) = full product of every conten
         "zero-padded content) at the place the independent parser finds it; read-back blob[:declared] == content with the encrypted flag; no "
         "needle (content, 8-byte windows of high-entropy values, session key, security code, customer key) in the binary or hex text; "
         "faulted writes raise and leave no needle in the sink. Distinct = case tuples; non-trivial = all."
-        ' Every file is read a further time without MAC checking (same components required).')
+        ' Every file is read a further time without MAC checking (same components required).'
+        " The encrypted component is also placed FIRST (addresses behind a padded ciphertext); ('notag', len, framing): a flagged component without the encryption tag (recorded finding).")
 ASSUMPTIONS = [
     "a component is 'marked for session-key encryption' when it has both the flag and the ENC=SESSIONKEY tag (set_config creates exactly that)",
     "needles are >= 8 bytes and seed-derived high-entropy, so an accidental occurrence has probability < 2^-40 per file",
